@@ -44,6 +44,11 @@ func c18GenCfg(r *rand.Rand) *c18Cfg {
 			}
 		}
 	}
+	if c18P(r, 0.3) {
+		// response-body inspection switched for the transaction by a ctl (as late as the response-headers phase)
+		c.CtlResp = c18Pick(r, "access=On", "access=On", "access=Off", "force", "force")
+		c.CtlRespPhase = c18Pick(r, 1, 2, 3, 3, 3)
+	}
 	for ph := 1; ph <= 4; ph++ {
 		if !c18P(r, 0.6) {
 			continue
